@@ -279,7 +279,7 @@ def run(ctx):
         res.emitted = []
     # action coverage (vacuity) on small configurations
     cov = {}
-    for module, cfg, actions in (("TemplateLang", tl_cfg(nt=1, preset="echo", fuelp=2, ops=1, depth=1, emit=False), TL_ACTIONS),
+    for module, cfg, actions in (("TemplateLang", tl_cfg(nt=1, preset="echo", fuelp=3, ops=1, depth=1, emit=False), TL_ACTIONS),
                                  ("Expr", ex_cfg(fuel=2, ops=1, emit=False), EX_ACTIONS)):
         r = tlc.run(ctx, module, cfg, name=module + "_cov", coverage=True, timeout=600)
         if not r.ok:
